@@ -689,6 +689,9 @@ class RigidMotion:
             kw2 = dict(kw, a=(np.array(kw["a"]) @ R.T).tolist(), pos=(np.array(kw["pos"]) @ R.T).tolist())
             e1, _, _ = _energies(kw2, seed=seed)
         elif self.kind == "grid_translation_by_recenter":
+            # species with different valence charges (O 6, H 1, Si 4): the centre that recenter() uses for the atoms is the one it uses for the orbitals
+            kw = dict(kw, atom=["O", "H", "Si"])
+            e0, at0, W0 = _energies(kw, seed=seed)
             m = rng.integers(1, 6, 3)
             dr = (m / np.array(kw["s"])) @ a
             e1, _, _ = _energies(dict(kw, recenter_by=dr.tolist()), seed=seed)
